@@ -31,7 +31,10 @@
 #include <nitro/except/raise.hpp>
 
 #include <array>
+#include <iterator>
+#include <memory>
 #include <type_traits>
+#include <utility>
 
 namespace nitro
 {
@@ -192,7 +195,7 @@ namespace lang
             if (size_ >= capacity_)
                 raise("No capacity left!");
 
-            replace(data_[size_], value);
+            data_[size_] = value;
             ++size_;
 
             return size_ - 1;
